@@ -175,9 +175,6 @@ Flat(L)    == FlatRungs(RungsOf(L), 1)
 Ents(L)    == SelectSeq(Flat(L), LAMBDA x : x.it.k = "ent")
 AnyRungs(L) == {Flat(L)[i].rung : i \in {j \in DOMAIN Flat(L) : Flat(L)[j].it.k = "any"}}
 
-(* the earlier rung wins; within a rung a quoted literal beats a regex *)
-EntPrec(L, rung, lit) == 2 * (NRungs(L) - rung + 1) + (IF lit THEN 1 ELSE 0)
-
 (* terminals the match block lets the grammar use *)
 Mentioned(L) == {Ents(L)[i].it.to : i \in {j \in DOMAIN Ents(L) : ~Ents(L)[j].it.skip}}
 (* terminals of the grammar the match block does not mention: added by `_` *)
@@ -192,25 +189,32 @@ AllSupported(L) == \A i \in DOMAIN AllRegexes(L) : Supported(AllRegexes(L)[i])
 WellFormed(L) == /\ Cardinality(AnyRungs(L)) <= 1
                  /\ (Len(Added(L)) > 0 => AnyRungs(L) # {})
 
-TheAnyRung(L) == CHOOSE r \in AnyRungs(L) : TRUE
-
 (* the patterns of the lexer: [e, name, src, re, lit, skip, prec];        *)
 (* the implicit white-space skip sits above everything iff the user wrote  *)
-(* no skip rule                                                             *)
+(* no skip rule.  (Same definitions as above, bound once with LET so that   *)
+(* TLC does not recompute them for every entry.)                             *)
 Pats(L) ==
-  LET fromMatch == [i \in DOMAIN Ents(L) |->
-                      LET x == Ents(L)[i] IN
+  LET nr        == NRungs(L)
+      ents      == Ents(L)
+      anyr      == AnyRungs(L)
+      mentioned == {ents[i].it.to : i \in {j \in DOMAIN ents : ~ents[j].it.skip}}
+      added     == SelectSeq(L.uses, LAMBDA u : u.name \notin mentioned)
+      \* the earlier rung wins; within a rung a quoted literal beats a regex
+      prec(rung, lit) == 2 * (nr - rung + 1) + (IF lit THEN 1 ELSE 0)
+      theany    == CHOOSE r \in anyr : TRUE
+      fromMatch == [i \in DOMAIN ents |->
+                      LET x == ents[i] IN
                       [e |-> x.it.e, name |-> IF x.it.skip THEN "" ELSE x.it.to, src |-> x.it.re,
                        re |-> Norm(x.it.re), lit |-> x.it.lit, skip |-> x.it.skip,
-                       prec |-> EntPrec(L, x.rung, x.it.lit)]]
-      fromUses  == [i \in DOMAIN Added(L) |->
-                      LET u == Added(L)[i] IN
+                       prec |-> prec(x.rung, x.it.lit)]]
+      fromUses  == [i \in DOMAIN added |->
+                      LET u == added[i] IN
                       [e |-> u.e, name |-> u.name, src |-> u.re, re |-> Norm(u.re), lit |-> u.lit,
-                       skip |-> FALSE, prec |-> EntPrec(L, TheAnyRung(L), u.lit)]]
+                       skip |-> FALSE, prec |-> prec(theany, u.lit)]]
       wsre      == [k |-> "plus", r |-> [k |-> "set", s |-> L.ws]]
-      implicit  == IF HasSkipRule(L) THEN <<>>
+      implicit  == IF \E i \in DOMAIN ents : ents[i].it.skip THEN <<>>
                    ELSE <<[e |-> "ws", name |-> "", src |-> wsre, re |-> Norm(wsre), lit |-> FALSE,
-                           skip |-> TRUE, prec |-> 2 * NRungs(L) + 2]>>
+                           skip |-> TRUE, prec |-> 2 * nr + 2]>>
   IN fromMatch \o fromUses \o implicit
 
 EqualPrecPairs(P) == {ij \in (DOMAIN P) \X (DOMAIN P) : ij[1] < ij[2] /\ P[ij[1]].prec = P[ij[2]].prec}
